@@ -10,6 +10,7 @@ import (
 	"path/filepath"
 	"sort"
 	"strings"
+	"time"
 
 	"github.com/ontio/ontology/account"
 	"github.com/ontio/ontology/common"
@@ -18,6 +19,7 @@ import (
 	"github.com/ontio/ontology/core/store/ledgerstore"
 	"github.com/ontio/ontology/core/store/leveldbstore"
 	"github.com/ontio/ontology/core/types"
+	"github.com/ontio/ontology/smartcontract/service/native/ont"
 
 	"verif/harness/hx"
 	"verif/harness/ledgerkit"
@@ -26,10 +28,13 @@ import (
 // ---------- replayable input ----------
 
 type txSpec struct {
-	Token  string `json:"token"` // "ont" | "ong"
-	From   int    `json:"from"`  // account index; 0 = the genesis holder
+	Token  string `json:"token"`          // "ont" | "ong"
+	Kind   string `json:"kind,omitempty"` // "" = transfer | "approve" | "transferFrom"
+	From   int    `json:"from"`           // account index; 0 = the genesis holder
 	To     int    `json:"to"`
+	Sender int    `json:"sender,omitempty"` // transferFrom: the spender
 	Amount uint64 `json:"amount"`
+	All    bool   `json:"all,omitempty"` // transfer: the sender's whole balance as it stands before the block (the balance key is deleted)
 }
 
 type chainSpec struct {
@@ -38,8 +43,8 @@ type chainSpec struct {
 }
 
 // crashSpec names a crash point independently of the step numbering of the source:
-// After = last durable step completed ("start", "savestate", "commit:block", "commit:event",
-// "commit:state"); Torn >= 0: the crash hits inside the hash-file append of saveBlockToStateStore
+// After = last step completed among "start", "saveblock", "savestate", "saveevent", "commit:block",
+// "commit:event", "commit:state"; Torn >= 0: the crash hits inside the hash-file append of saveBlockToStateStore
 // after Torn bytes (After is then the durable step completed before it).
 type crashSpec struct {
 	Block int    `json:"block"` // height of the block being committed
@@ -145,6 +150,8 @@ func (a obs) diff(b obs) string {
 type kvPair struct{ K, V []byte }
 
 type dirDump struct {
+	Block     []kvPair // whole block LevelDB
+	Event     []kvPair // whole event LevelDB
 	State     []kvPair // whole state LevelDB, key order
 	File      []byte   // merkle_tree.db
 	BlockCur  int64    // block store current height (-1: none)
@@ -155,18 +162,38 @@ type dirDump struct {
 	HashIndex []string // block hash by height 0..BlockCur
 }
 
-func dumpDir(dir string) (*dirDump, error) {
-	d := &dirDump{BlockCur: -1, StateCur: -1, EventCur: -1}
-	st, err := leveldbstore.NewLevelDBStore(filepath.Join(dir, ledgerstore.DBDirState))
+func rawDump(path string) ([]kvPair, error) {
+	st, err := leveldbstore.NewLevelDBStore(path)
 	if err != nil {
-		return nil, fmt.Errorf("open state db: %v", err)
+		return nil, err
 	}
+	var out []kvPair
 	it := st.NewIterator(nil)
 	for ok := it.First(); ok; ok = it.Next() {
-		d.State = append(d.State, kvPair{append([]byte{}, it.Key()...), append([]byte{}, it.Value()...)})
+		out = append(out, kvPair{append([]byte{}, it.Key()...), append([]byte{}, it.Value()...)})
 	}
 	it.Release()
 	st.Close()
+	return out, nil
+}
+
+func dumpDir(dir string) (*dirDump, error) { return dumpDirRaw(dir, false) }
+
+// dumpDirRaw: with raw, the block and event LevelDBs are dumped whole as well (atomicity oracle).
+func dumpDirRaw(dir string, raw bool) (*dirDump, error) {
+	d := &dirDump{BlockCur: -1, StateCur: -1, EventCur: -1}
+	var err error
+	if d.State, err = rawDump(filepath.Join(dir, ledgerstore.DBDirState)); err != nil {
+		return nil, fmt.Errorf("open state db: %v", err)
+	}
+	if raw {
+		if d.Block, err = rawDump(filepath.Join(dir, ledgerstore.DBDirBlock)); err != nil {
+			return nil, fmt.Errorf("open block db: %v", err)
+		}
+		if d.Event, err = rawDump(filepath.Join(dir, ledgerstore.DBDirEvent)); err != nil {
+			return nil, fmt.Errorf("open event db: %v", err)
+		}
+	}
 	for _, p := range d.State {
 		if len(p.K) == 1 && p.K[0] == byte(scom.SYS_CURRENT_BLOCK) && len(p.V) == 36 {
 			d.StateCur = int64(binary.LittleEndian.Uint32(p.V[32:]))
@@ -232,11 +259,35 @@ type builtChain struct {
 	bad    []*types.Block        // by height h >= 1: a block for height h with a wrong block root
 	badErr []string              // how the uncrashed ledger at height h-1 answered bad[h]
 	snaps  []string              // closed copy of the data directory at height h
+	stages [][]stageCopy         // by height h >= 1: live copies of the directory taken between the steps of submitBlock
+	hookOK bool                  // the staged copy of submitBlock is in sync with the source and was used
 	dumps  []*dirDump
 	obs    []obs
 }
 
+// stageCopy is the data directory as it was on disk when the commit of a block had completed C
+// steps (copied while the ledger was open, between the real calls).
+type stageCopy struct {
+	Name string // start | saveblock | savestate | saveevent | commit:<store>
+	C    int
+	Dir  string
+	Dump *dirDump
+}
+
 func (bc *builtChain) top() int { return len(bc.blocks) - 1 }
+
+func (bc *builtChain) stageFor(h, c int) *stageCopy {
+	if h >= len(bc.stages) {
+		return nil
+	}
+	var best *stageCopy
+	for i := range bc.stages[h] {
+		if sc := &bc.stages[h][i]; sc.C <= c && (best == nil || sc.C > best.C) {
+			best = sc
+		}
+	}
+	return best
+}
 
 func classifyErr(err error, accepted bool) string {
 	if err == nil {
@@ -266,8 +317,9 @@ func addBlock(k *ledgerkit.Kit, b *types.Block, sroot common.Uint256) string {
 	return classifyErr(err, k.Ledger.GetCurrentBlockHeight() == before+1)
 }
 
-func buildChain(c *hx.Ctx, name string, spec chainSpec) (*builtChain, error) {
-	bc := &builtChain{spec: spec, dir: filepath.Join(c.OutDir, name)}
+func buildChain(c *hx.Ctx, name string, spec chainSpec, steps []Step, hookOK bool) (*builtChain, error) {
+	bc := &builtChain{spec: spec, dir: filepath.Join(c.OutDir, name), hookOK: hookOK}
+	bc.stages = [][]stageCopy{nil}
 	live := filepath.Join(bc.dir, "live")
 	k, err := ledgerkit.New(live)
 	if err != nil {
@@ -304,11 +356,7 @@ func buildChain(c *hx.Ctx, name string, spec chainSpec) (*builtChain, error) {
 	for h := 1; h <= len(spec.Blocks); h++ {
 		var txs []*types.Transaction
 		for _, t := range spec.Blocks[h-1] {
-			tok := ledgerkit.OntAddr
-			if t.Token == "ong" {
-				tok = ledgerkit.OngAddr
-			}
-			tx, err := k.TransferTx(tok, bc.accts[t.From%len(bc.accts)], bc.accts[t.To%len(bc.accts)].Address, t.Amount, 0, 20000)
+			tx, err := buildTx(k, bc.accts, t)
 			if err != nil {
 				return nil, err
 			}
@@ -332,8 +380,54 @@ func buildChain(c *hx.Ctx, name string, spec chainSpec) (*builtChain, error) {
 		}
 		bc.bad = append(bc.bad, bad)
 		bc.badErr = append(bc.badErr, addBlock(k, bad, res.MerkleRoot))
-		if got := addBlock(k, b, res.MerkleRoot); got != "OAccepted" {
+		var stages []stageCopy
+		if hookOK {
+			// the real commit sequence, with the data directory copied between its calls
+			var cbErr error
+			cb := func(stage string) {
+				sc := stageCopy{Name: stage, C: stageIndex(steps, stage), Dir: filepath.Join(bc.dir, fmt.Sprintf("stage%d_%d", h, len(stages)))}
+				if sc.C < 0 {
+					cbErr = fmt.Errorf("stage %q is not a step of submitBlock", stage)
+					return
+				}
+				if err := copyLive(live, sc.Dir); err != nil {
+					cbErr = err
+					return
+				}
+				stages = append(stages, sc)
+			}
+			if err := k.Store().VerifSubmitBlockStaged(b, nil, res, cb); err != nil {
+				return nil, fmt.Errorf("block %d not accepted by the uncrashed ledger: %v", h, err)
+			}
+			if cbErr != nil {
+				return nil, cbErr
+			}
+			for i := range stages {
+				d, err := dumpDirRaw(stages[i].Dir, true)
+				if err != nil {
+					return nil, err
+				}
+				stages[i].Dump = d
+			}
+		} else if got := addBlock(k, b, res.MerkleRoot); got != "OAccepted" {
 			return nil, fmt.Errorf("block %d not accepted by the uncrashed ledger: %s", h, got)
+		}
+		bc.stages = append(bc.stages, stages)
+		for i, n := range res.Notify {
+			kind := "transfer"
+			if i < len(spec.Blocks[h-1]) && spec.Blocks[h-1][i].Kind != "" {
+				kind = spec.Blocks[h-1][i].Kind
+			}
+			c.Count(fmt.Sprintf("tx:%s:state=%d", kind, n.State))
+		}
+		dels := 0
+		res.WriteSet.ForEach(func(key, val []byte) {
+			if len(val) == 0 {
+				dels++
+			}
+		})
+		if dels > 0 {
+			c.Count("block:deletes-keys")
 		}
 		bc.blocks = append(bc.blocks, b)
 		bc.sroots = append(bc.sroots, res.MerkleRoot)
@@ -344,6 +438,108 @@ func buildChain(c *hx.Ctx, name string, spec chainSpec) (*builtChain, error) {
 	}
 	k.Close()
 	return bc, nil
+}
+
+// listing of a directory tree (names and sizes), to detect a copy that raced with LevelDB's
+// background compaction.
+func listing(dir string) string {
+	var b strings.Builder
+	filepath.Walk(dir, func(p string, info os.FileInfo, err error) error {
+		if err == nil && !info.IsDir() {
+			fmt.Fprintf(&b, "%s:%d;", p, info.Size())
+		}
+		return nil
+	})
+	return b.String()
+}
+
+// copyLive copies the data directory of an OPEN ledger between two steps of submitBlock. No write
+// of the ledger itself is in flight at that moment, but LevelDB may be compacting in the
+// background (files appear and vanish): the copy is repeated until the directory listing is the
+// same before and after it.
+func copyLive(src, dst string) error {
+	var err error
+	for try := 0; try < 40; try++ {
+		before := listing(src)
+		os.RemoveAll(dst)
+		err = ledgerkit.CopyDir(src, dst)
+		if err == nil && listing(src) == before {
+			return nil
+		}
+		if err == nil {
+			err = fmt.Errorf("directory kept changing while it was copied")
+		}
+		time.Sleep(25 * time.Millisecond)
+	}
+	return err
+}
+
+// stageIndex: number of completed steps when the callback named stage fires.
+func stageIndex(steps []Step, stage string) int {
+	if stage == "start" {
+		return 0
+	}
+	for i, s := range steps {
+		if s.String() == stage {
+			return i + 1
+		}
+	}
+	return -1
+}
+
+type xferFrom struct {
+	Sender common.Address
+	From   common.Address
+	To     common.Address
+	Value  uint64
+}
+
+func balanceOf(k *ledgerkit.Kit, tok, a common.Address) uint64 {
+	v, err := k.Ledger.GetStorageItem(tok, a[:])
+	if err != nil || len(v) == 0 {
+		return 0
+	}
+	if len(v) <= 8 {
+		var b [8]byte
+		copy(b[:], v)
+		return binary.LittleEndian.Uint64(b[:])
+	}
+	return common.BigIntFromNeoBytes(v).Uint64()
+}
+
+func buildTx(k *ledgerkit.Kit, accts []*account.Account, t txSpec) (*types.Transaction, error) {
+	tok := ledgerkit.OntAddr
+	if t.Token == "ong" {
+		tok = ledgerkit.OngAddr
+	}
+	from := accts[t.From%len(accts)]
+	to := accts[t.To%len(accts)]
+	switch t.Kind {
+	case "approve":
+		mtx, err := k.NativeTx(tok, 0, 0, 20000, "approve", []interface{}{&ont.TransferState{From: from.Address, To: to.Address, Value: t.Amount}})
+		if err != nil {
+			return nil, err
+		}
+		if err := ledgerkit.Sign(mtx, from); err != nil {
+			return nil, err
+		}
+		return mtx.IntoImmutable()
+	case "transferFrom":
+		sender := accts[t.Sender%len(accts)]
+		mtx, err := k.NativeTx(tok, 0, 0, 20000, "transferFrom", []interface{}{&xferFrom{sender.Address, from.Address, to.Address, t.Amount}})
+		if err != nil {
+			return nil, err
+		}
+		if err := ledgerkit.Sign(mtx, sender); err != nil {
+			return nil, err
+		}
+		return mtx.IntoImmutable()
+	}
+	amount := t.Amount
+	if t.All {
+		amount = balanceOf(k, tok, from.Address)
+	}
+	return k.TransferTx(tok, from, to.Address, amount, 0, 20000)
 }
 
 // ---------- crash points of submitBlock, as the source orders its steps ----------
@@ -358,7 +554,7 @@ type crashPoint struct {
 }
 
 func (p crashPoint) sig() string {
-	return fmt.Sprintf("%v%v%v%s%d", p.NewBlock, p.NewEvent, p.NewState, p.File, p.Torn)
+	return fmt.Sprintf("%s/%v%v%v%s%d", p.After, p.NewBlock, p.NewEvent, p.NewState, p.File, p.Torn)
 }
 
 // simulate returns what is durable after the first c steps, or an error when the step order is
@@ -379,6 +575,7 @@ func simulate(steps []Step, c int) (crashPoint, error) {
 				return p, fmt.Errorf("SaveBlock without an open block batch")
 			}
 			content["block"] += "B"
+			p.After = "saveblock"
 		case "SaveState":
 			if !open["state"] || !open["event"] {
 				return p, fmt.Errorf("SaveState without open state and event batches")
@@ -395,6 +592,7 @@ func simulate(steps []Step, c int) (crashPoint, error) {
 				return p, fmt.Errorf("SaveEvent without an open event batch")
 			}
 			content["event"] += "E"
+			p.After = "saveevent"
 		case "Commit":
 			if open[s.Store] && content[s.Store] != "" {
 				if content[s.Store] != full[s.Store] {
@@ -501,6 +699,34 @@ func resolve(steps []Step, cs crashSpec) (crashPoint, error) {
 // assemble builds the data directory a crash at p leaves while block h is committed on top of
 // snapshot h-1: every store and the hash file come from the old or the new snapshot.
 func assemble(bc *builtChain, h int, p crashPoint, dst string) error {
+	if sc := bc.stageFor(h, p.C); bc.hookOK && sc != nil {
+		// faithful: the directory as copied between the real calls at that very point
+		if err := os.RemoveAll(dst); err != nil {
+			return err
+		}
+		if err := ledgerkit.CopyDir(sc.Dir, dst); err != nil {
+			return err
+		}
+		if p.Torn < 0 {
+			return nil
+		}
+		oldF := sc.Dump.File
+		var newF []byte
+		for _, x := range bc.stages[h] {
+			if x.Name == "savestate" {
+				newF = x.Dump.File
+			}
+		}
+		if len(newF) < len(oldF) || !bytes.Equal(newF[:len(oldF)], oldF) {
+			return fmt.Errorf("hash file after saveBlockToStateStore of block %d does not extend the one before it", h)
+		}
+		j := p.Torn
+		if j > len(newF)-len(oldF) {
+			j = len(newF) - len(oldF)
+		}
+		f := append(append([]byte{}, oldF...), newF[len(oldF):len(oldF)+j]...)
+		return os.WriteFile(filepath.Join(dst, ledgerstore.MerkleTreeStorePath), f, 0o644)
+	}
 	oldD, newD := bc.snaps[h-1], bc.snaps[h]
 	pick := func(isNew bool) string {
 		if isNew {
@@ -562,6 +788,45 @@ func assemble(bc *builtChain, h int, p crashPoint, dst string) error {
 		f = append(append([]byte{}, oldF...), newF[len(oldF):len(oldF)+j]...)
 	}
 	return os.WriteFile(filepath.Join(dst, ledgerstore.MerkleTreeStorePath), f, 0o644)
+}
+
+// checkAtomicity ties the model's hypothesis "a store changes only at its CommitTo, and then by
+// the whole batch" to the implementation: every store of every stage copy of block h must equal
+// that store before the block (copy "start") until its commit step has run, and its final content
+// (last copy) afterwards; likewise the hash file w.r.t. saveBlockToStateStore.
+func checkAtomicity(c *hx.Ctx, bc *builtChain, steps []Step, h int) {
+	st := bc.stages[h]
+	if len(st) < 2 {
+		return
+	}
+	first, last := st[0].Dump, st[len(st)-1].Dump
+	for _, sc := range st {
+		exp, err := simulate(steps, sc.C)
+		if err != nil {
+			return
+		}
+		in := scenario{Chain: bc.spec, Crash: crashSpec{Block: h, After: sc.Name, Torn: -1}}
+		chk := func(store string, isNew bool, got, a, b []kvPair) {
+			want, what := a, "its content before the block (nothing of this store has been committed yet)"
+			if isNew {
+				want, what = b, "its content after the block (its batch has been committed)"
+			}
+			if d := stateEqual(got, want); d != "" {
+				c.Fail("atomicity:write-before-commit", fmt.Sprintf("after step %q of submitBlock the %s store on disk differs from %s: %s — a write reached LevelDB outside the store's atomic batch commit", sc.Name, store, what, d),
+					in, nil, nil)
+			}
+		}
+		chk("block", exp.NewBlock, sc.Dump.Block, first.Block, last.Block)
+		chk("event", exp.NewEvent, sc.Dump.Event, first.Event, last.Event)
+		chk("state", exp.NewState, sc.Dump.State, first.State, last.State)
+		wantF := first.File
+		if exp.File == "new" {
+			wantF = last.File
+		}
+		if !bytes.Equal(sc.Dump.File, wantF) {
+			c.Fail("atomicity:hash-file", fmt.Sprintf("after step %q the hash file is neither the old nor the fully appended one as the step order predicts", sc.Name), in, len(sc.Dump.File), len(wantF))
+		}
+	}
 }
 
 func sortedKeys(m map[string]int) []string {
